@@ -490,6 +490,8 @@ def explore_cfg(arg):
     stack = collections.deque([list(opts.get('root', []))])
     import time as _rt
     t_end = _rt.time() + cfg.get('budget_s', 900)
+    if opts.get('deadline'):
+        t_end = min(t_end, opts['deadline'])
     while stack:
         if want and len(stack) >= want:
             break
@@ -519,21 +521,34 @@ def explore_cfg(arg):
     return d
 
 
-def explore_split(cfgs, want=40):
+def explore_split(cfgs, want=40, wall_s=None):
     """Each (cfg, bound, cap) explored over the whole par pool: the first
     levels breadth first in one worker, the subtrees below in all of them.
-    Same coverage as explore_cfg, one merged dict per config."""
+    Same coverage as explore_cfg, one merged dict per config.  ``wall_s``:
+    wall-clock budget for the whole call (whatever is unexplored then is
+    reported as capped)."""
     from vmc import par
+    import time as _rt
+    dl = _rt.time() + wall_s if wall_s else None
     heads = par.pmap('harness.l3:explore_cfg',
-                     [(c, b, cap, {'frontier': want}) for c, b, cap in cfgs])
+                     [(c, b, cap, {'frontier': want, 'deadline': dl})
+                      for c, b, cap in cfgs])
     jobs, owner = [], []
     for i, ((c, b, cap), h) in enumerate(zip(cfgs, heads)):
         roots = h.pop('roots')
         # subtrees are uneven: each may use up to 3x its even share
         per = max(200, 3 * cap // max(1, len(roots))) if cap else cap
         for r in roots:
-            jobs.append((c, b, per, {'root': r}))
+            jobs.append((c, b, per, {'root': r, 'deadline': dl}))
             owner.append(i)
+    # interleave the configs so that a wall-clock cap is spread over all
+    seen_, rank = {}, []
+    for o in owner:
+        rank.append(seen_.get(o, 0))
+        seen_[o] = rank[-1] + 1
+    order = sorted(range(len(jobs)), key=lambda k: (rank[k], owner[k]))
+    jobs = [jobs[k] for k in order]
+    owner = [owner[k] for k in order]
     subs = par.pmap('harness.l3:explore_cfg', jobs)
     out = []
     for i, h in enumerate(heads):
